@@ -175,7 +175,7 @@ def doActionCore (w : World) (mid : Nat) (batch : Option Txn) (a : Action) : Wor
       | some t => { w with trades := w.trades ++ [t] }
       | none => w
     -- a new order object: no status yet, not complete (`BaseOrder.__init__`)
-    let o := { o with id := w.orders.length, created := w.clock, statusAt := w.clock, status := none, complete := false }
+    let o := { o with id := w.orders.length, created := w.clock, statusAt := w.clock, status := none, complete := false, log := [] }
     let t := w.trade! o.trade
     (({ w with orders := w.orders ++ [o] }).setTrade { t with orders := t.orders ++ [o.id] }, batch, "created")
   | .place tg v force => direct ((w.clients.head?.map (·.id)).getD 0) fun w t => w.txnPlace t (tg.resolve w) v true force
